@@ -192,6 +192,10 @@ pub fn step(s: &J) -> String {
         }
         "select" => format!("select {}", items(&s["items"])),
         "derive" => format!("derive {}", items(&s["items"])),
+        "exclude" => {
+            let cs: Vec<String> = s["cols"].as_array().map(|a| a.iter().map(expr).collect()).unwrap_or_default();
+            format!("select !{{{}}}", cs.join(", "))
+        }
         "aggregate" => format!("aggregate {}", items(&s["items"])),
         "filter" => format!("filter {}", expr(&s["e"])),
         "sort" => {
